@@ -18,6 +18,10 @@ N15 `match t { Enum::A => { X } #[cfg(c)] Enum::B => { Y } _ => {} }` as a state
     unit variant  ->  `if t == Enum::A { X }  #[cfg(c)] if t == Enum::B { Y }`   (the patterns are disjoint, so the order is free)
 N18 `match M.entry(K) { Entry::Occupied(o) => { A }, Entry::Vacant(v) => { .. v.insert(V) .. } }`  ->
     `if M.contains_key(&K) { A } else { .. M.insert(K, V) .. }`  (o unused)  /  `if let Some(o) = M.get_mut(&K) { A[o.into_mut() := o] } else { .. }`
+N31 `match (a, b) { (true, true) => .., .. }` over bool literals -> nested `if`s
+N30 `I.try_for_each(|p| BODY)?;` -> `for p in I { BODY with Ok(()) -> nothing, Err(e) -> return Err(e) }`
+N29 `let (a, b) = if C { (X1, X2) } else { (Y1, Y2) };` -> one conditional `let` per component
+N28 `if C { return A; } REST; TAIL` at the top of a small function -> `if C { A } else { REST; TAIL }`
 N27 `for x in I.filter(|p| C) { B }` (also through a single-use `let it = I.filter(..)`) -> `for x in I { if C { B } }`
 N26 `let v = I.find(..); if let P = v { .. }` -> `if let P = I.find(..) { .. }` (then the find-loop desugaring applies)
 N19 inside `if V.is_none() { .. }`:  `let mut it = I.filter(|q| C); if let Some(p) = it.next() { if it.next().is_none() { V = Some(E); } }`
@@ -767,6 +771,171 @@ def _let_into_next_iflet(stmts):
     return None
 
 
+def _early_return_to_else(block):
+    """N28 at the top level of a function body: `if C { return A; } REST.. TAIL` -> `if C { A } else { REST.. TAIL }` (the function's
+    value either way); only for small helpers (the rest is at most three statements and contains no further `return`)"""
+    st = block.get('stmts') or []
+    if len(st) < 2 or st[-1].get('k') != 'Expr' or st[-1].get('semi'):
+        return
+    for i in range(len(st) - 2, -1, -1):
+        a = st[i]
+        if a.get('k') != 'Expr' or not isinstance(a.get('expr'), dict) or a['expr'].get('k') != 'If' or a['expr'].get('else') is not None:
+            continue
+        th = a['expr']['then'].get('stmts') or []
+        if len(th) != 1 or th[0].get('k') != 'Expr' or th[0]['expr'].get('k') != 'Return' or not isinstance(th[0]['expr'].get('expr'), dict):
+            continue
+        rest = st[i + 1:]
+        if len(rest) > 4:
+            continue
+        has_ret = []
+        _walk(rest, lambda x: has_ret.append(1) if x.get('k') in ('Return', 'Try') else None)
+        if has_ret:
+            continue
+        l = a.get('l', 0)
+        iff = dict(a['expr'])
+        iff['then'] = {'k': 'Block', 'l': l, 'stmts': [{'k': 'Expr', 'expr': th[0]['expr']['expr'], 'semi': False, 'l': l}]}
+        iff['else'] = {'k': 'Block', 'l': l, 'stmts': rest}
+        iff['desugared'] = 'early-return'
+        block['stmts'] = st[:i] + [{'k': 'Expr', 'expr': iff, 'semi': False, 'l': l}]
+        return
+
+
+def _split_tuple_let(st):
+    """N29 `let (a, b) = if C { (X1, X2) } else { (Y1, Y2) };` (every branch is just a tuple) ->
+    `let a = if C { X1 } else { Y1 }; let b = if C { X2 } else { Y2 };` — C is a pure test of values (no call), so evaluating it twice
+    changes nothing"""
+    if st.get('k') != 'Local' or st.get('else') is not None or st.get('attrs') or not isinstance(st.get('init'), dict):
+        return None
+    p = st['pat']
+    while p.get('k') == 'Type':
+        p = p['pat']
+    e = st['init']
+    if p.get('k') != 'Tuple' or e.get('k') != 'If' or e.get('else') is None or e['cond'].get('k') == 'Let':
+        return None
+    n_ = len(p['elems'])
+    if any(x.get('k') not in ('Ident', 'Wild') or x.get('sub') for x in p['elems']):
+        return None
+    impure = []
+    _walk(e['cond'], lambda x: impure.append(1) if x.get('k') in ('Call', 'MethodCall', 'Macro', 'Try') and not (x.get('k') == 'MethodCall' and x.get('method') in ('is_none', 'is_some', 'is_empty')) else None)
+    if impure:
+        return None
+
+    def tup(b):
+        while isinstance(b, dict) and b.get('k') == 'Block' and len(b.get('stmts') or []) == 1 and b['stmts'][0]['k'] == 'Expr' and not b['stmts'][0]['semi']:
+            b = b['stmts'][0]['expr']
+        return b if isinstance(b, dict) and b.get('k') == 'Tuple' and len(b['elems']) == n_ else None
+    a, b = tup(e['then']), tup(e['else'])
+    if a is None or b is None:
+        return None
+    import copy as _c
+    l = st.get('l', 0)
+    out = []
+    for i in range(n_):
+        if p['elems'][i].get('k') == 'Wild':
+            continue
+        blk = lambda x: {'k': 'Block', 'l': l, 'stmts': [{'k': 'Expr', 'expr': x, 'semi': False, 'l': l}]}
+        iff = {'k': 'If', 'l': l, 'cond': _c.deepcopy(e['cond']), 'then': blk(a['elems'][i]), 'else': blk(b['elems'][i]), 'desugared': 'tuple-let'}
+        out.append({'k': 'Local', 'l': l, 'attrs': [], 'else': None, 'ty': None, 'pat': p['elems'][i], 'init': iff})
+    return out
+
+
+def _try_for_each(n):
+    """N30 `I.try_for_each(|p| BODY)?;` as a statement -> `for p in I { BODY' }` where the closure's result leaves become `Ok(())` -> nothing,
+    `Err(e)` -> `return Err(e)` (a `?` inside the closure leaves it with the error, which the outer `?` returns: the same as in the loop)"""
+    if n.get('k') != 'Expr' or not isinstance(n.get('expr'), dict) or n['expr'].get('k') != 'Try':
+        return None
+    c = n['expr']['expr']
+    if not (isinstance(c, dict) and c.get('k') == 'MethodCall' and c.get('method') == 'try_for_each' and len(c.get('args', [])) == 1
+            and c['args'][0].get('k') == 'Closure' and len(c['args'][0].get('params', [])) == 1):
+        return None
+    clo = c['args'][0]
+    bad = []
+    _walk(clo['body'], lambda x: bad.append(1) if x.get('k') == 'Return' else None)
+    if bad:
+        return None
+    l = n.get('l', 0)
+
+    def leaves(e):
+        k = e.get('k')
+        if k == 'Call' and e['func'].get('k') == 'Path' and len(e['args']) == 1:
+            fn_ = e['func']['path']['s']
+            if fn_ == 'Ok' and e['args'][0].get('k') == 'Tuple' and not e['args'][0].get('elems'):
+                return {'k': 'Block', 'l': l, 'stmts': []}
+            if fn_ == 'Err':
+                return {'k': 'Block', 'l': l, 'stmts': [{'k': 'Expr', 'expr': {'k': 'Return', 'l': l, 'expr': e}, 'semi': True, 'l': l}]}
+            return None
+        if k == 'If' and e.get('else') is not None:
+            t, f = leaves(e['then']), leaves(e['else'])
+            if t is None or f is None:
+                return None
+            return {'k': 'Block', 'l': l, 'stmts': [{'k': 'Expr', 'expr': dict(e, then=t, **{'else': f}), 'semi': False, 'l': l}]}
+        if k == 'Block':
+            st = e.get('stmts') or []
+            if not st or st[-1].get('k') != 'Expr' or st[-1].get('semi'):
+                return None
+            v = leaves(st[-1]['expr'])
+            if v is None:
+                return None
+            return dict(e, stmts=st[:-1] + v['stmts'])
+        return None
+    body = leaves(clo['body'] if clo['body'].get('k') == 'Block' else {'k': 'Block', 'l': l, 'stmts': [{'k': 'Expr', 'expr': clo['body'], 'semi': False, 'l': l}]})
+    if body is None:
+        return None
+    it = c['recv']
+    if it.get('k') == 'MethodCall' and it.get('method') == 'into_iter' and not it.get('args'):
+        it = it['recv']
+    loop = {'k': 'For', 'pat': clo['params'][0], 'expr': it, 'label': None, 'l': l, 'desugared': 'try_for_each', 'body': body}
+    return [dict(n, expr=norm(loop), semi=False)]
+
+
+def _bool_tuple_match(n):
+    """N31 `match (a, b) { (true, true) => A, (true, false) => B, (false, true) => C, (false, false) => D }` (literal patterns, `_` allowed,
+    first matching arm wins) -> nested `if a { if b { A } else { B } } else { .. }`"""
+    sc = n.get('expr')
+    if not (isinstance(sc, dict) and sc.get('k') == 'Tuple' and 1 < len(sc['elems']) <= 3):
+        return None
+    k_ = len(sc['elems'])
+    rows = []
+    for a in n.get('arms', []):
+        if a.get('guard') is not None:
+            return None
+        p = a['pat']
+        if p.get('k') == 'Wild':
+            rows.append(([None] * k_, a['body']))
+            continue
+        if p.get('k') != 'Tuple' or len(p['elems']) != k_:
+            return None
+        r = []
+        for e in p['elems']:
+            if e.get('k') == 'Wild':
+                r.append(None)
+            elif e.get('k') == 'Lit' and isinstance(e.get('lit'), dict) and e['lit'].get('k') == 'Bool':
+                r.append(bool(e['lit'].get('v')))
+            else:
+                return None
+        rows.append((r, a['body']))
+    l = n.get('l', 0)
+
+    def blk(x):
+        return x if x.get('k') == 'Block' else {'k': 'Block', 'l': l, 'stmts': [{'k': 'Expr', 'expr': x, 'semi': False, 'l': l}]}
+
+    def build(i, assign):
+        if i == k_:
+            for r, body in rows:
+                if all(rv is None or rv == av for rv, av in zip(r, assign)):
+                    return blk(body)
+            return None
+        t, f = build(i + 1, assign + [True]), build(i + 1, assign + [False])
+        if t is None or f is None:
+            return None
+        return {'k': 'Block', 'l': l, 'stmts': [{'k': 'Expr', 'semi': False, 'l': l,
+                                                 'expr': {'k': 'If', 'l': l, 'cond': sc['elems'][i], 'then': t, 'else': f, 'desugared': 'bool-tuple-match'}}]}
+    r = build(0, [])
+    if r is None:
+        return None
+    return r['stmts'][0]['expr']
+
+
 def _let_into_next_for(stmts):
     """N27a `let it = I.filter(..); for P in it { .. }` (it immutable, used nowhere else) -> `for P in I.filter(..) { .. }`"""
     for i in range(len(stmts) - 1):
@@ -799,24 +968,42 @@ def _filter_loop(n):
     if not (isinstance(it, dict) and it.get('k') == 'MethodCall' and it.get('method') == 'filter' and len(it.get('args', [])) == 1
             and it['args'][0].get('k') == 'Closure' and len(it['args'][0]['params']) == 1):
         return None
-    q = it['args'][0]['params'][0]
-    while q.get('k') in ('Ref', 'Type'):
-        q = q['pat']
-    x = n.get('pat')
-    while isinstance(x, dict) and x.get('k') in ('Ref', 'Type'):
-        x = x['pat']
-    if q.get('k') != 'Ident' or not isinstance(x, dict) or x.get('k') != 'Ident':
-        return None
+    def _strip(p_):
+        while isinstance(p_, dict) and p_.get('k') in ('Ref', 'Type'):
+            p_ = p_['pat']
+        return p_
+    q = _strip(it['args'][0]['params'][0])
+    x = _strip(n.get('pat'))
     cond = it['args'][0]['body']
     while cond.get('k') == 'Block' and len(cond['stmts']) == 1 and cond['stmts'][0]['k'] == 'Expr' and not cond['stmts'][0]['semi']:
         cond = cond['stmts'][0]['expr']
-    if cond.get('k') == 'Block':
+    if cond.get('k') == 'Block' or not isinstance(x, dict) or not isinstance(q, dict):
         return None
-    if q['name'] != x['name']:
-        cond = _rename_ident(cond, q['name'], x['name'])
+    newpat = n.get('pat')
+    if q.get('k') == 'Ident' and x.get('k') == 'Ident':
+        if q['name'] != x['name']:
+            cond = _rename_ident(cond, q['name'], x['name'])
+    elif q.get('k') == 'Tuple' and x.get('k') == 'Tuple' and len(q['elems']) == len(x['elems']):
+        # `for (_, field, _) in I.filter(|(_, _, attr)| C)`: one pattern that binds what either of them binds
+        merged = []
+        for qe, xe in zip(q['elems'], x['elems']):
+            qe, xe = _strip(qe), _strip(xe)
+            if xe.get('k') == 'Ident' and not xe.get('sub'):
+                if qe.get('k') == 'Ident' and qe['name'] != xe['name']:
+                    cond = _rename_ident(cond, qe['name'], xe['name'])
+                elif qe.get('k') not in ('Ident', 'Wild'):
+                    return None
+                merged.append(xe)
+            elif xe.get('k') == 'Wild' and qe.get('k') in ('Ident', 'Wild'):
+                merged.append(qe)
+            else:
+                return None
+        newpat = dict(x, elems=merged)
+    else:
+        return None
     l = n.get('l', 0)
     inner = {'k': 'If', 'cond': cond, 'then': n['body'], 'else': None, 'l': l, 'desugared': 'filter'}
-    return dict(n, expr=it['recv'], body={'k': 'Block', 'stmts': [{'k': 'Expr', 'expr': inner, 'semi': False, 'l': l}], 'l': l})
+    return dict(n, pat=newpat, expr=it['recv'], body={'k': 'Block', 'stmts': [{'k': 'Expr', 'expr': inner, 'semi': False, 'l': l}], 'l': l})
 
 
 def norm(n):
@@ -829,6 +1016,7 @@ def norm(n):
         n = dict(n)
         n['block'] = _copy.deepcopy(n['block'])
         _vec_pieces(n)
+        _early_return_to_else(n["block"])
     n = {k: (norm(v) if not (isinstance(k, str) and k.startswith('_')) else v) for k, v in n.items()}
     k = n.get('k')
     if k == 'Block' and isinstance(n.get('stmts'), list):
@@ -851,6 +1039,10 @@ def norm(n):
         for st in n['stmts']:
             rep = _any_let(st)
             if rep is None:
+                rep = _try_for_each(st)
+            if rep is None:
+                rep = _split_tuple_let(st)
+            if rep is None:
                 rep = _cfg_block_let(st)
             if rep is None:
                 rep = _match_as_ifs(st)
@@ -858,6 +1050,10 @@ def norm(n):
                 rep = _entry_match(st)
             out.extend(rep if rep is not None else [st])
         n['stmts'] = out
+    if k == 'Match':
+        r31 = _bool_tuple_match(n)
+        if r31 is not None:
+            return r31
     if k == 'For':
         r27b = _filter_loop(n)
         if r27b is not None:
@@ -920,6 +1116,7 @@ def norm(n):
             loop = {'k': 'For', 'pat': item, 'expr': a, 'label': None, 'l': l, 'desugared': 'extend',
                     'body': {'k': 'Block', 'stmts': [{'k': 'Expr', 'expr': inner, 'semi': True, 'l': l}], 'l': l}}
         if loop is not None:
+            loop = _filter_loop(loop) or loop
             n = dict(n)
             n['expr'] = loop
             n['semi'] = False
